@@ -430,8 +430,21 @@ func main() {
 	accessCases()
 	nWorlds := f.N(30, 400)
 	for i := 0; i < nWorlds; i++ {
-		wd := genWorld(r, i%5 != 4, fmt.Sprintf("w%d", i), i%6 == 3)
-		runShardCases(r.Fork(), &wd, i%8 != 7, 3, nil)
+		collide := i%3 == 0
+		wd := genWorld(r, i%5 != 4, fmt.Sprintf("w%d", i), collide)
+		var fixed []*nq
+		if collide {
+			// one query per owner that matches exactly that owner's documents (every file name carries the marker):
+			// with a shared repository name, List's selection by name must still only use what the context itself finds
+			seen := map[int]bool{}
+			for _, rp := range wd.Repos {
+				if !seen[rp.Tenant] {
+					seen[rp.Tenant] = true
+					fixed = append(fixed, &nq{Kind: "subf", Pat: marker(rp.Tenant)})
+				}
+			}
+		}
+		runShardCases(r.Fork(), &wd, i%8 != 7, 3-len(fixed)/2, fixed)
 	}
 	nDirs := f.N(4, 40)
 	for i := 0; i < nDirs; i++ {
